@@ -24,7 +24,7 @@ RULE = (
     "value on shared outputs); restart with cache_deps_of=[n] enters exactly n. non-trivial = the file holds at "
     "least one and not all function sites."
 )
-ASSUMPTIONS = ["the restart uses the same program and the same arguments as the caching run"]
+ASSUMPTIONS = ["the restart uses the same program and the same arguments as the caching run, or (defaulted parameter) no arguments: the inputs of the caching run are in the file"]
 BUDGET = {"quick": {"shards": 4, "seconds": 40}, "thorough": {"shards": 16, "seconds": 420}}
 
 
@@ -119,8 +119,10 @@ def _round(case: Dict[str, Any], path: str) -> CaseResult:
         ex2 = sched.Exec("free")
         try:
             e2 = _executor(b2, b2.node_ids(), rmode, rsel, from_cache=path)
+            # the restart may omit the arguments: the inputs of the caching run are in the file
+            args2 = [] if case.get("restart_omits_args") else args
             with ex2:
-                v2 = asyncio.run(e2(*args)) if is_async else e2(*args)
+                v2 = asyncio.run(e2(*args2)) if is_async else e2(*args2)
         except BaseException as e:  # noqa: BLE001
             if isinstance(e, KeyboardInterrupt):
                 raise
@@ -158,6 +160,10 @@ def cases(draw: Any, tier: str) -> Dict[str, Any]:
     case["cache_mode"] = draw(st.sampled_from(["whole", "target", "target", "deps_of", "deps_of"]))
     if case["cache_mode"] != "whole":
         case["cache_sel"] = draw(st.lists(st.sampled_from(sites), min_size=1, max_size=2, unique=True))
+    if npar and draw(st.booleans()):
+        # the parameter has a default, the caching run overrides it, the restart passes nothing
+        P["params"] = [[P["params"][0][0], {"d": draw(st.sampled_from([7, "dflt"]))}]]
+        case["restart_omits_args"] = True
     if case["cache_mode"] == "deps_of":
         case["restart_mode"] = draw(st.sampled_from(["whole", "deps_of", "deps_of"]))
     elif case["cache_mode"] == "target":
